@@ -57,7 +57,46 @@ class C20(Machine):
             c = pb.client()
             for _ in range(rng.randint(2, 5)):
                 op = rng.choice(["permutk", "permutk_gen", "permutk_abandon", "nextperm", "combink", "combink_gen",
-                                 "exactsum", "exactsum", "exactsum", "dynprog", "repeat"])
+                                 "exactsum", "exactsum", "exactsum", "dynprog", "repeat", "permutk_reenum"])
+                if op == "permutk_reenum":
+                    # one consumer: abandons an enumeration of L part-way (keeps the generator), later
+                    # enumerates the same L completely; the abandoned generator is closed before, in
+                    # the middle of, or after the second enumeration
+                    l = rlist(rng)
+                    while len(l) < 3:
+                        l = rlist(rng)
+                    k = rng.choice([0, 0, 1])
+                    lo = pb.obj({"kind": "value", "val": list(l)})
+                    meta["lists"][str(lo)] = list(l)
+                    pb.plan["observe"].append([lo, ""])
+                    total = 1
+                    for i in range(2, len(l) - k + 1):
+                        total *= i
+                    g1 = pb.step(c, k="call", obj=fn["permutk"], name="__call__", args=[{"obj": lo}, k], kw={}, tag="reenum_first", role="re_first", lst=lo, fname="permutk")
+                    for _ in range(rng.randint(1, min(total - 1, 4))):
+                        pb.step(c, k="pull", gen=g1, n=1, tag="pull", role="re_pull1", obj=fn["permutk"], lst=lo)
+                    when = rng.choice(["before", "middle", "after", "never"])
+                    rec = {"first": g1, "lst": lo, "k2": rng.choice([0, 0, 1]), "when": when, "pulls2": [], "close": None}
+                    if when == "before":
+                        rec["close"] = pb.step(c, k="close", gen=g1, tag="close_first", role="re_close", obj=fn["permutk"], lst=lo)
+                    tot2 = 1
+                    for i in range(2, len(l) - rec["k2"] + 1):
+                        tot2 *= i
+                    if tot2 <= 24:
+                        g2 = pb.step(c, k="call", obj=fn["permutk"], name="__call__", args=[{"obj": lo}, rec["k2"]], kw={}, tag="reenum_second", role="re_second", lst=lo, fname="permutk")
+                        rec["second"] = g2
+                        mid = rng.randint(1, tot2) if when == "middle" else None
+                        for j in range(tot2 + 1):
+                            if mid is not None and j == mid:
+                                rec["close"] = pb.step(c, k="close", gen=g1, tag="close_first", role="re_close", obj=fn["permutk"], lst=lo)
+                            rec["pulls2"].append(pb.step(c, k="pull", gen=g2, n=1, tag="pull", role="re_pull2", obj=fn["permutk"], lst=lo))
+                    else:
+                        rec["second"] = pb.step(c, k="call", obj=fn["permutk"], name="__call__", args=[{"obj": lo}, rec["k2"]], kw={}, post="list",
+                                                tag="reenum_second_eager", role="re_second_eager", lst=lo, fname="permutk")
+                    if when == "after":
+                        rec["close"] = pb.step(c, k="close", gen=g1, tag="close_first", role="re_close", obj=fn["permutk"], lst=lo)
+                    meta.setdefault("reenum", []).append(rec)
+                    continue
                 if op == "repeat" and repeat_pool:
                     name, args = rng.choice(repeat_pool)
                     ex = {"post": "list"} if name == "combink" else {}
@@ -245,6 +284,52 @@ class C20(Machine):
                 if any(s.get("c") != plan["steps"][lo].get("c") for s in plan["steps"][lo:hi]):
                     probe("other_client_ran_while_generator_suspended")
                     nontrivial = True
+        order_ = {t["id"]: i for i, t in enumerate(plan["steps"])}
+        for rec in meta.get("reenum", []):
+            ids = [rec["first"], rec["second"]] + rec["pulls2"] + ([rec["close"]] if rec["close"] else [])
+            if any(i not in by_id for i in ids):
+                continue
+            lo = rec["lst"]
+            pos2 = order_[rec["second"]]
+            # content of the list when the second enumeration starts = what was observed just before
+            prev = hist[pos2 - 1] if pos2 > 0 else None
+            start = prev["obs"][obs_pos[lo]] if prev is not None and "obs" in prev else meta["lists"][str(lo)]
+            kk = rec["k2"]
+            model = sorted(start[:kk] + list(p) for p in itertools.permutations(start[kk:]))
+            probe("reenumeration_after_abandoned_generator")
+            if rec["pulls2"]:
+                got = []
+                stopped = False
+                bad_out = None
+                for pid in rec["pulls2"]:
+                    out = by_id[pid]["out"]
+                    if out[0] != "ok":
+                        bad_out = out
+                        break
+                    if out[1][0] == {"stop": 1}:
+                        stopped = True
+                        break
+                    got.append(out[1][0])
+                last_id = rec["pulls2"][min(len(got), len(rec["pulls2"]) - 1)]
+                if bad_out is not None or sorted(got) != model or not stopped:
+                    vs.append(vio("reenumeration_multiset", "permutk", "pull", last_id,
+                                  {"start": start, "k": kk, "yielded": len(got), "model": len(model), "error": bad_out, "closed_first": rec["when"]}))
+                    continue
+                after = by_id[last_id]["obs"][obs_pos[lo]]
+            else:
+                e2 = by_id[rec["second"]]
+                if e2["out"][0] != "ok" or sorted(e2["out"][1]) != model:
+                    vs.append(vio("reenumeration_multiset", "permutk", "permutk", rec["second"],
+                                  {"start": start, "k": kk, "got": repr(e2["out"])[:120], "model": len(model), "closed_first": rec["when"]}))
+                    continue
+                after = e2["obs"][obs_pos[lo]]
+            if after != start:
+                vs.append(vio("permutk_list_not_restored", "permutk", "reenum", rec["second"], {"start": start, "after": after, "closed_first": rec["when"]}))
+                continue
+            if rec["close"] and order_[rec["close"]] > order_[rec["second"]] and rec["when"] == "after":
+                endl = by_id[rec["close"]]["obs"][obs_pos[lo]]
+                if endl != start:
+                    vs.append(vio("list_changed_by_closing_abandoned_generator", "permutk", "close", rec["close"], {"start": start, "after_close": endl}))
         fin = by_id.get(-1)
         if fin and fin.get("changed"):
             # nextperm returns its (mutated) argument by design: a later change of that is the caller's doing
